@@ -535,10 +535,18 @@ func (j *judge) checkTrees(o, n string, oc, nc *pcommit) {
 		}
 		ftrig := trig
 		if j.op.Fixup && kind == "raw" {
+			if want {
+				run.Count("fixup_raw_paths_git_says_lfs", 1)
+			} else {
+				run.Count("fixup_raw_paths_git_says_not_lfs", 1)
+			}
 			if j.mixed[p+"\x00"+oe.Sha] == 3 {
 				// the same blob at the same path is LFS-tracked in some selected commits and not in others
 				ftrig = "fixup-tracking-differs-between-commits"
-			} else if j.c.spec.Gen.Fixup != "plain" {
+			} else if !want && (j.c.spec.Gen.FixupOverrides || j.c.spec.Mode == "fixup-after-export") {
+				// Git says the raw file is not filter=lfs (a later line / nested file takes the attribute back)
+				ftrig = "fixup-filter-override"
+			} else if j.c.spec.Gen.Fixup != "plain" && j.c.spec.Gen.Fixup != "" {
 				ftrig = "fixup-" + j.c.spec.Gen.Fixup
 			}
 		}
